@@ -23,6 +23,19 @@ EXPLANATION = (
 )
 
 
+def _break_at_first_empty(w, li, valid_forms) -> bool:
+    """The rank loop is left at the first empty slot, before anything else is done with the rank."""
+    from ..ir import facts, mk_not
+    brk = [e for e in w.events if e.kind == "break" and e.loops and e.loops[-1] == li.lid]
+    if len(brk) != 1:
+        return False
+    own = [f for f in facts(brk[0].guards) if f not in facts(li.guards)]
+    if len(own) != 1 or mk_not(own[0]) not in valid_forms:
+        return False
+    first = [e for e in w.events if li.lid in e.loops and e.kind in ("store", "call") and e.name not in ("builtin.range", "<inline>")]
+    return all(e.seq > brk[0].seq for e in first if e.kind == "store")
+
+
 def check_predict(chk, rep, repo, cls, fields):
     w = model_walk(repo, cls, "predict")
     fn = w.entry
@@ -57,7 +70,7 @@ def check_predict(chk, rep, repo, cls, fields):
            qargs.get("X") == ("param", fn.params[1]),
            f"the query nodes are built from '{show(qargs.get('X')) if qargs.get('X') else '?'}' instead of the argument '{fn.params[1]}'",
            line=sc.per.line)
-    kterm = sc.slot
+    kterm = sc.k
     # (min(best_k, n_nodes [- 1]) is best_k for every model fit can produce: a sample has at most n - 1 neighbours)
     if kterm[0] == "min" and len(kterm[1]) == 2 and ("attr", G, "best_k") in kterm[1]:
         other = [x for x in kterm[1] if x != ("attr", G, "best_k")][0]
@@ -83,6 +96,9 @@ def check_predict(chk, rep, repo, cls, fields):
     valid_forms = validity_tests(sc, w, r)
     if len(bs.outer_guards) == 1 and bs.outer_guards[0] in valid_forms:
         need = bs.outer_guards[0]
+    if bs.outer_guards == [] and _break_at_first_empty(w, li, valid_forms):
+        # `if d[r] == FLOAT_MAX: break`: the buffer is ascending, so every slot after the first empty one is empty too
+        bs.outer_guards = [need]
     rep.fn("ARGMAX-valid", fn, "only filled slots take part", bs.outer_guards == [need],
            f"guards around the acceptance: {[show(g)[:80] for g in bs.outer_guards]}", line=li.line)
     from ..ir import is_neg_float_max
@@ -183,6 +199,9 @@ def check_predict(chk, rep, repo, cls, fields):
             if not (c[0] == "listcomp" and len(c[2]) == 1 and c[2][0][0] == ("attr", Q, "nodes") and not c[2][0][2]
                     and c[1] == ("attr", ("iter", c[2][0][0], c[2][0][1]), f)):
                 okr = False
+    if not okr and len(rets) == 1:
+        from ..rules_premise import appended_results
+        okr = appended_results(w, sc.per, x, rets[0].value, fields) is not None  # one `out.append(node.field)` per query
     rep.fn("KNN-result", fn, "results list the query nodes in query order", okr,
            f"returns '{show(rets[0].value)[:140] if rets else '?'}'")
     run_kinds(rep, w)
